@@ -23,32 +23,65 @@ def run(chk, prog):
     shape = ("call", ("attr", ("call", ("attr", P("gen_fn"), "get_zero_trace"), (("star", P("args")),), ()), "get_choices"), (), ())
     sel = ("call", G(c.module.dotted + "._shape_selection"), (shape,), ())
     extras = ("call", ("attr", SELF, "filter"), (("un", "~", sel),), ())
-    got = Arms()
-    for conds, ret in r.returns:
-        got["extras" if any(is_mcall(t, "static_is_empty") and not p for t, p in conds) else "none"] = ret
+    def alias(t):
+        """the selection's own one-line aliases (judged by C18 / taken below): sel.complement() is ~sel, sel.filter(chm) is chm.filter(sel)"""
+        if not isinstance(t, tuple):
+            return t
+        t = tuple(alias(x) for x in t)
+        if is_mcall(t, "complement") and not t[2] and not t[3]:
+            return ("un", "~", t[1][1])
+        if is_mcall(t, "filter") and t[2] == (SELF,) and t[1][1] != SELF:
+            return ("call", ("attr", SELF, "filter"), (t[1][1],), ())
+        return t
+    from ..terms import renorm, resolve
+    full = alias(r.ret)
+    test_ = ("call", ("attr", extras, "static_is_empty"), (), ())
+    got = {"extras": renorm(resolve(full, test_, False)), "none": renorm(resolve(full, test_, True))}
     chk.require(got.get("extras") == extras, "POLARITY", "ChoiceMap.invalid_subset/extras", "the part of the map OUTSIDE the model's shape", derived=show(got.get("extras"))[:200], expected="self.filter(~_shape_selection(gen_fn.get_zero_trace(*args).get_choices()))", where=where)
-    okn = is_t(r.ret, "phi") and r.ret[3] == extras and r.ret[2] == C(None) and r.ret[1] == ("call", ("attr", extras, "static_is_empty"), (), ())
-    chk.require(okn, "POLARITY", "ChoiceMap.invalid_subset/none", "None iff nothing is left over", derived=show(r.ret)[:200], expected="extras if not extras.static_is_empty() else None", where=where)
+    okn = got.get("none") == C(None) and any(is_t(x, "phi") and x[1] == test_ for x in [full] + [y for y in __import__("sa.terms", fromlist=["subterms"]).subterms(full)])
+    chk.require(okn, "POLARITY", "ChoiceMap.invalid_subset/none", "None iff nothing is left over", derived=show(full)[:200], expected="extras if not extras.static_is_empty() else None", where=where)
     m, ss = prog.func("_shape_selection", CM)
-    loop = prog.nested(ss, "loop")
+    import ast as _ast
+    # the recursive walker is found by its role (the nested function that calls itself); its first parameter is the node, further parameters are passed along
+    walkers = [n for n in _ast.walk(ss) if isinstance(n, _ast.FunctionDef) and n is not ss and any(isinstance(x, _ast.Call) and isinstance(x.func, _ast.Name) and x.func.id == n.name for x in _ast.walk(n))]
+    if len(walkers) != 1 or not walkers[0].args.args:
+        raise AnalysisError(f"_shape_selection: expected one recursive walker, found {len(walkers)}")
+    loop = walkers[0]
     ev2 = Evaluator(prog)
-    rl = ev2.eval_fn(loop, m, env0={"loop": G("$loop")})
-    INNER, SEL = P("inner"), P("selection")
+    rl0 = ev2.eval_fn(loop, m, env0={loop.name: G("$loop")})
+    INNER, SEL = P(loop.args.args[0].arg), P("selection")
+
+    def canon(t):
+        """walker calls without the passed-along arguments; single-component extend / StaticSel.build as one EXT term"""
+        if not isinstance(t, tuple):
+            return t
+        t = tuple(canon(x) for x in t)
+        if is_t(t, "call") and t[1] == G("$loop") and t[2]:
+            return ("call", G("$loop"), (t[2][0],), ())
+        if is_mcall(t, "extend") and len(t[2]) == 1 and not t[3]:
+            return ("EXT", t[1][1], t[2][0])
+        if is_call(t, "build") and is_t(t[1][1], "global") and t[1][1][1].endswith(".StaticSel") and len(t[2]) == 2:
+            return ("EXT", t[2][0], t[2][1])
+        return t
     arms = Arms()
-    for conds, ret in rl.returns:
+    for conds, ret in rl0.returns:
         for t, p in conds:
             if p and is_t(t, "isinst") and t[1] == INNER:
-                arms[t[2]] = ret
+                arms[t[2]] = canon(ret)
+
+    class _R:  # (the raising arms of the walker)
+        raises = rl0.raises
+    rl = _R
     classes = {ci.name for ci in prog.subclasses("ChoiceMap") if ci.module.rel.endswith("choice_map.py")}
     chk.require(set(arms) == classes, "CHM-EXHAUSTIVE", "_shape_selection/classes", "one arm per ChoiceMap class", derived=f"arms {sorted(arms)} vs classes {sorted(classes)}", expected="Static, Indexed, Choice, Or, Switch", where=f"{m.rel}:{ss.lineno}")
     chk.require(len(rl.raises) >= 1, "CHM-EXHAUSTIVE", "_shape_selection/default", "unknown classes raise", derived=f"{len(rl.raises)} raising arm(s)", expected="default arm raises ValueError", where=f"{m.rel}:{ss.lineno}")
-    L = lambda *a: ("call", G("$loop"), tuple(a), ())
+    L = lambda *a: ("call", G("$loop"), tuple(a[:1]), ())
     w = f"{m.rel}:{loop.lineno}"
     # Choice -> leaf
     chk.require(arms.get("Choice") == ("ctor", "LeafSel", (), ()), "SHAPE-SEL", "_shape_selection/Choice", "a value is a leaf", derived=show(arms.get("Choice")), expected="LeafSel()", where=w)
     # Indexed -> wildcard
     ix = arms.get("Indexed")
-    okx = is_mcall(ix, "extend") and ix[2] == (C(Ellipsis),) and ix[1][1] == L(("attr", INNER, "c"), SEL)
+    okx = ix == ("EXT", L(("attr", INNER, "c")), C(Ellipsis))
     chk.require(okx, "SHAPE-SEL", "_shape_selection/Indexed", "index levels become the ... wildcard; the selection passes through", derived=show(ix)[:200], expected="loop(c, selection).extend(...)", where=w)
     # Or -> union
     o = arms.get("Or")
@@ -63,11 +96,11 @@ def run(chk, prog):
     st = arms.get("Static")
     keys = ("attr", INNER, "mapping")
     a = mk_elem(keys)
-    want = ("call", ("attr", L(("call", INNER, (a,), ()), ("call", SEL, (a,), ())), "extend"), (a,), ())
+    want = ("EXT", L(("call", INNER, (a,), ())), a)
     okst = is_t(st, "bin") and st[1] == "|" and is_call(st[2], "none") and st[3] == ("sumover", keys, want)
     chk.require(okst, "SHAPE-SEL", "_shape_selection/Static", "union over ALL addresses of the sub-shape re-extended by the same address", derived=show(st)[:300], expected="acc |= loop(inner.get_submap(addr), selection(addr)).extend(addr) for every addr", where=w)
     rs = Evaluator(prog, max_depth=0).eval_fn(ss, m)
-    chk.require(is_t(rs.ret, "call") and len(rs.ret[2]) == 2 and rs.ret[2][0] == P("chm") and is_call(rs.ret[2][1], "all"), "SHAPE-SEL", "_shape_selection/start", "starts from Selection.all()", derived=show(rs.ret)[:120], expected="loop(chm, Selection.all())", where=f"{m.rel}:{ss.lineno}")
+    chk.require(is_t(rs.ret, "call") and rs.ret[2][:1] == (P("chm"),) and (len(rs.ret[2]) == 1 or is_call(rs.ret[2][1], "all")), "SHAPE-SEL", "_shape_selection/start", "walks the whole map (any selection passed along starts as Selection.all())", derived=show(rs.ret)[:120], expected="walker(chm[, Selection.all()])", where=f"{m.rel}:{ss.lineno}")
     # invalid_subset is `filter(~shape_sel)`: it is only as right as the selection algebra it is built from (C18)
     from ..report import Check
     from . import C18
